@@ -9,3 +9,9 @@ __CPROVER_requires (VP_MU_IS (mu) && vp_g.spin && !vp_g.dead)
 __CPROVER_ensures (!vp_g.spin && vp_g.hold == __CPROVER_old (vp_g.hold) && vp_g.waited == __CPROVER_old (vp_g.waited))
 __CPROVER_ensures (vp_g.enq_count == __CPROVER_old (vp_g.enq_count) && (vp_g.dead == 0 || vp_g.release_ctx))
 __CPROVER_assigns (vp_g.spin, vp_g.last_new, vp_g.dead, mu->word);
+
+/* queue-link helper (same_condition rings), abstracted in the word-level proof: returns NULL or some record of the queue */
+static nsync_dll_element_ *skip_past_same_condition (nsync_dll_list_ waiter_list, nsync_dll_element_ *p)
+__CPROVER_requires (p != NULL)
+__CPROVER_ensures (__CPROVER_return_value == NULL || __CPROVER_return_value == &vp_fw.nw.q)
+__CPROVER_assigns ();
